@@ -86,3 +86,325 @@ Example limit_instance : run_limit list_source 1 2 [10; 20; 30; 40] = [20; 30].
 Proof. reflexivity. Qed.
 Example limit_negative_offset_is_modelled : run_limit list_source (-1) 2 [1; 2; 3] = [1].
 Proof. reflexivity. Qed.
+
+(* ================================================================ the same laws
+   for the evaluator's own iterators (Proofs/PipelineLaws.v): statements about
+   the [next] / [iterate] / [eval_for] of Eval.v.
+
+   [yields n w P it fs]: pulled with fuel n in world w, each time with any scope
+   s of the set P, the iterator state [it] returns the rows f1 s, f2 s, ... of
+   fs, then reports the end, and never changes the world.  A row is a function
+   of the scope of the pull because every clause derives the scope it pulls its
+   source with from the one it was given ([forked P] = the forks of the scopes
+   of P).  [yields_at n it s w rows] is the loop form: the evaluator's drain loop,
+   always pulling with scope s, returns rows and ends in the world w it started
+   from; for a single scope the two forms are equivalent. *)
+From Ferret Require Import Eval Proofs.PipelineLaws.
+
+Theorem eval_yields_forms_agree : forall (n : nat) (it : Eval.iter) (s : frames) (w : world) (rows : list frames),
+  yields_at n it s w rows <-> yields n w (eq s) it (map const_row rows).
+Proof. exact yields_at_iff. Qed.
+
+(* FILTER keeps exactly the rows on which the expression is the boolean true
+   ([vtrue], as ItFilter tests it), in order.  Fuel: the premises at fuel n, the
+   conclusion at every fuel M >= n + (number of source rows) + 2. *)
+Theorem eval_filter_law : forall (A : Type) (g : A -> rowf) (b : A -> bool) (e : expr)
+    (n : nat) (w : world) (P : scopes) (src : Eval.iter) (l : list A),
+  yields n w (forked P) src (map g l) ->
+  (forall a, In a l -> forall s, P s ->
+     exists v, eval n e (g a (fork s)) w = (Ok v, w) /\ vtrue v = b a) ->
+  forall M : nat, (n + length l + 2 <= M)%nat ->
+  yields M w P (ItFilter src e) (map (fun a s => g a (fork s)) (filter b l)).
+Proof. exact filter_law. Qed.
+
+Theorem eval_filter_law_loop : forall (e : expr) (b : frames -> bool) (n : nat) (src : Eval.iter)
+    (sc : frames) (w : world) (rows : list frames),
+  yields_at n src (fork sc) w rows ->
+  (forall r, In r rows -> exists v, eval n e r w = (Ok v, w) /\ vtrue v = b r) ->
+  forall M : nat, (n + length rows + 2 <= M)%nat ->
+  yields_at M (ItFilter src e) sc w (filter b rows).
+Proof. exact filter_law_at. Qed.
+
+(* LIMIT o, c (the state [iterate] builds for literal integers, see
+   eval_iterate_clauses) returns exactly that slice.  The rows it returns are
+   pulled with the scope it was given, the rows it skips with a fork of it. *)
+Theorem eval_limit_law : forall (n : nat) (w : world) (P Q : scopes) (src : Eval.iter) (fs : list rowf) (c o : Z),
+  0 <= o ->
+  (forall s, P s -> Q s) -> (o <> 0 -> forall s, P s -> Q (fork s)) ->
+  yields n w Q src fs ->
+  forall M : nat, (n + Nat.min (Z.to_nat o) (length fs) + 2 <= M)%nat ->
+  yields M w P (ItLimit src c o 0) (firstn (Z.to_nat c) (skipn (Z.to_nat o) fs)).
+Proof. exact limit_law. Qed.
+
+(* ... and it never pulls more than o + c rows: only the first o + c pulls of the
+   source are constrained ([pulls]: that many successful pulls, nothing said
+   about the state src' they lead to) *)
+Theorem eval_limit_pulls_at_most_offset_plus_count :
+  forall (n : nat) (w : world) (P Q : scopes) (src src' : Eval.iter) (fs : list rowf) (c o : Z),
+  0 <= o ->
+  (forall s, P s -> Q s) -> (o <> 0 -> forall s, P s -> Q (fork s)) ->
+  pulls n w Q src fs src' -> (Z.to_nat o + Z.to_nat c <= length fs)%nat ->
+  forall M : nat, (n + Z.to_nat o + 2 <= M)%nat ->
+  yields M w P (ItLimit src c o 0) (firstn (Z.to_nat c) (skipn (Z.to_nat o) fs)).
+Proof. exact limit_law_prefix. Qed.
+
+Theorem eval_limit_law_loop : forall (c : Z) (n : nat) (src : Eval.iter) (sc : frames) (w : world) (rows : list frames),
+  yields_at n src sc w rows ->
+  forall M : nat, (n + 2 <= M)%nat ->
+  yields_at M (ItLimit src c 0 0) sc w (firstn (Z.to_nat c) rows).
+Proof. exact limit_law_at. Qed.
+
+(* with an offset the loop form is not enough: over a materialising source
+   (SORT) the rows LIMIT 1, 1 returns differ from the source's own rows by one
+   empty frame, because the source was first pulled with the forked scope *)
+Theorem eval_limit_offset_needs_both_scopes :
+  let rows := [[[(cex_x, VInt 1)]; []; []]; [[(cex_x, VInt 2)]; []; []]] in
+  yields_at 10 cex_sort_src [[]] cex_world rows /\
+  yields_at 10 (ItLimit cex_sort_src 1 1 0) [[]] cex_world [[[(cex_x, VInt 2)]; []; []; []]] /\
+  forall n : nat, ~ yields_at n (ItLimit cex_sort_src 1 1 0) [[]] cex_world (firstn 1 (skipn 1 rows)).
+Proof. exact limit_offset_single_scope_refuted. Qed.
+
+(* SORT k1 [DESC], k2 [DESC], ...: every key expression evaluates purely on
+   every row ([keyf a] = the key values of a); the rows come out in the order of
+   the evaluator's stable sort with its multi-key less-than [keys_lt] *)
+Theorem eval_sort_law : forall (A : Type) (g : A -> rowf) (keyf : A -> list value) (ks : list (expr * bool))
+    (n : nat) (w : world) (sc : frames) (src : Eval.iter) (l : list A),
+  yields n w (eq (fork sc)) src (map g l) ->
+  (forall a, In a l ->
+     Forall2 (fun (ke : expr * bool) v => eval n (fst ke) (g a (fork sc)) w = (Ok v, w)) ks (keyf a)) ->
+  forall M : nat, (n + length l + 2 <= M)%nat ->
+  yields M w (eq sc) (ItSort src ks None)
+         (map const_row (map (fun a => g a (fork sc)) (sorted_by_keys A keyf ks l))).
+Proof. exact sort_law. Qed.
+
+Theorem eval_sort_law_loop : forall (keyf : frames -> list value) (ks : list (expr * bool)) (n : nat)
+    (src : Eval.iter) (sc : frames) (w : world) (rows : list frames),
+  yields_at n src (fork sc) w rows ->
+  (forall r, In r rows ->
+     Forall2 (fun (ke : expr * bool) v => eval n (fst ke) r w = (Ok v, w)) ks (keyf r)) ->
+  forall M : nat, (n + length rows + 2 <= M)%nat ->
+  yields_at M (ItSort src ks None) sc w (sorted_by_keys frames keyf ks rows).
+Proof. exact sort_law_at. Qed.
+
+(* ... which is a permutation, has no inversion between neighbours and keeps
+   mutually tied rows in source order (the three laws of sort_stable_perm_sorted
+   above, for the evaluator's sort and key order) *)
+Theorem eval_sorted_is_stable_sort : forall (A : Type) (keyf : A -> list value) (ks : list (expr * bool)) (l : list A),
+  let lt := fun a b => keys_lt (combine (keyf a) (map snd ks)) (combine (keyf b) (map snd ks)) in
+  Permutation l (sorted_by_keys A keyf ks l) /\
+  no_inversion lt (sorted_by_keys A keyf ks l) = true /\
+  (forall c : A -> bool, (forall a b, c a = true -> c b = true -> lt a b = false) ->
+     filter c (sorted_by_keys A keyf ks l) = filter c l).
+Proof. exact sorted_by_keys_laws. Qed.
+
+(* a single key: the order is the value order vcompare (reversed for DESC) *)
+Theorem eval_sort_single_key_order : forall (x y : value) (desc : bool),
+  keys_lt [(x, desc)] [(y, desc)] = ((if desc then - vcompare x y else vcompare x y) =? -1).
+Proof. exact keys_lt_single. Qed.
+
+(* RETURN [DISTINCT] e: the array of the values of e on the rows (DISTINCT: the
+   first occurrences, [dedup_acc] of Iter.v with the structural equality the
+   result table uses; RETURN NONE keeps nothing) *)
+Theorem eval_return_law : forall (A : Type) (g : A -> rowf) (out : A -> value) (distinct : bool) (e : expr)
+    (n : nat) (w : world) (sc : frames) (q : forq) (it : Eval.iter) (l : list A),
+  w_cancelled w = false ->
+  for_ret q = RReturn distinct e ->
+  iterate n (for_ds q) sc w = (Ok it, w) ->
+  yields n w (eq sc) it (map g l) ->
+  (forall a, In a l -> eval n e (g a sc) w = (Ok (out a), w)) ->
+  forall M : nat, (n + length l + 2 <= M)%nat ->
+  eval_for M q sc w =
+  (Ok (VArr (if is_none e then []
+             else if distinct then dedup struct_eqb (map out l) else map out l)), w).
+Proof. exact return_law. Qed.
+
+(* COLLECT k = e INTO g = pe (one group key, projection given): one row per
+   group of collect_groups -- the groups of the partition theorem above, keys
+   compared with the structural equality of the group table -- binding k to the
+   key and g to the array of the members' projections, in arrival order *)
+Theorem eval_collect_law : forall (A : Type) (g0 : A -> rowf) (key pv : A -> value)
+    (x gname vv : name) (e pe : expr) (n : nat) (w : world) (sc : frames) (src : Eval.iter) (l : list A),
+  bytes_eqb x ignore_name = false -> bytes_eqb gname ignore_name = false -> bytes_eqb x gname = false ->
+  yields n w (eq (fork sc)) src (map g0 l) ->
+  (forall a, In a l ->
+     eval n e (g0 a (fork sc)) w = (Ok (key a), w) /\ closer_id (key a) = None /\
+     eval n pe (g0 a (fork sc)) w = (Ok (pv a), w)) ->
+  forall M : nat, (n + length l + 2 <= M)%nat ->
+  yields M w (eq sc) (ItCollect src [(x, e)] (CTInto gname (Some pe)) vv None)
+         (map const_row (map (fun km => [(gname, VArr (map pv (snd km))); (x, fst km)] :: sc)
+                             (collect_groups key struct_eqb l))).
+Proof. exact collect_into_law. Qed.
+
+(* the states [iterate] builds for the clauses *)
+Theorem eval_iterate_clauses : forall (n : nat) (d : dsrc) (sc : frames) (w w' : world) (it : Eval.iter),
+  iterate n d sc w = (Ok it, w') ->
+  (forall e, iterate (S n) (DFilter d e) sc w = (Ok (ItFilter it e), w')) /\
+  (forall ks, iterate (S n) (DSort d ks) sc w = (Ok (ItSort it ks None), w')) /\
+  (forall c o, (1 <= n)%nat ->
+     iterate (S n) (DLimit d (EInt c) (EInt o)) sc w = (Ok (ItLimit it c o 0), w')).
+Proof.
+  exact (fun n d sc w w' it H =>
+           conj (fun e => iterate_filter n d e sc w it w' H)
+                (conj (fun ks => iterate_sort n d ks sc w it w' H)
+                      (fun c o L => iterate_limit n d c o sc w it w' L H))).
+Qed.
+
+(* the laws compose, end to end through eval_for:
+   FOR x IN src FILTER e LIMIT o, c RETURN x  over a source array vs *)
+Theorem eval_pipeline_example_law : forall (x : name) (src e : expr) (o c : Z) (b : value -> bool)
+    (vs : list value) (n : nat) (w : world) (sc : frames),
+  w_cancelled w = false ->
+  bytes_eqb x [] = false -> bytes_eqb x ignore_name = false ->
+  0 <= o ->
+  eval n src sc w = (Ok (VArr vs), w) ->
+  Forall (fun v => closer_id v = None) vs ->
+  (forall v, In v vs -> forall s, s = sc \/ s = fork sc ->
+     exists r, eval n e ([(x, v)] :: fork s) w = (Ok r, w) /\ vtrue r = b v) ->
+  forall M : nat, (n + 3 * length vs + 8 <= M)%nat ->
+  eval_for M (ForIn x None src [CFilter e; CLimit (Some (EInt o)) (EInt c)] (RReturn false (EVar x))) sc w =
+  (Ok (VArr (firstn (Z.to_nat c) (skipn (Z.to_nat o) (filter b vs)))), w).
+Proof. exact filter_limit_return_law. Qed.
+
+(* FOR x IN src SORT k1 [DESC], ... RETURN x *)
+Theorem eval_sort_pipeline_law : forall (x : name) (src : expr) (ks : list (expr * bool)) (keyf : value -> list value)
+    (vs : list value) (n : nat) (w : world) (sc : frames),
+  w_cancelled w = false ->
+  bytes_eqb x [] = false -> bytes_eqb x ignore_name = false ->
+  eval n src sc w = (Ok (VArr vs), w) ->
+  Forall (fun v => closer_id v = None) vs ->
+  (forall v, In v vs ->
+     Forall2 (fun (ke : expr * bool) k => eval n (fst ke) ([(x, v)] :: fork sc) w = (Ok k, w)) ks (keyf v)) ->
+  forall M : nat, (n + 2 * length vs + 8 <= M)%nat ->
+  eval_for M (ForIn x None src [CSort ks] (RReturn false (EVar x))) sc w =
+  (Ok (VArr (sorted_by_keys value keyf ks vs)), w).
+Proof. exact sort_return_law. Qed.
+
+(* FOR x IN src COLLECT k = e INTO g = pe RETURN [k, g]: iterate sorts the rows
+   by the group key (stable) before grouping *)
+Theorem eval_collect_pipeline_law : forall (x kname gname : name) (src e pe : expr) (keyf pvf : value -> value)
+    (vs : list value) (n : nat) (w : world) (sc : frames),
+  w_cancelled w = false ->
+  bytes_eqb x [] = false -> bytes_eqb x ignore_name = false ->
+  bytes_eqb kname ignore_name = false -> bytes_eqb gname ignore_name = false ->
+  bytes_eqb kname gname = false ->
+  eval n src sc w = (Ok (VArr vs), w) ->
+  Forall (fun v => closer_id v = None) vs ->
+  (forall v, In v vs ->
+     eval n e ([(x, v)] :: fork (fork sc)) w = (Ok (keyf v), w) /\ closer_id (keyf v) = None /\
+     eval n pe ([(x, v)] :: fork (fork sc)) w = (Ok (pvf v), w)) ->
+  forall M : nat, (n + 3 * length vs + 12 <= M)%nat ->
+  eval_for M (ForIn x None src [CCollect [(kname, e)] (CTInto gname (Some pe))]
+                (RReturn false (EArr [EVar kname; EVar gname]))) sc w =
+  (Ok (VArr (map (fun km => VArr [fst km; VArr (map pvf (snd km))])
+                 (collect_groups keyf struct_eqb
+                    (sorted_by_keys value (fun v => [keyf v]) [(e, false)] vs)))), w).
+Proof. exact collect_return_law. Qed.
+
+Print Assumptions eval_yields_forms_agree.
+Print Assumptions eval_filter_law.
+Print Assumptions eval_filter_law_loop.
+Print Assumptions eval_limit_law.
+Print Assumptions eval_limit_pulls_at_most_offset_plus_count.
+Print Assumptions eval_limit_law_loop.
+Print Assumptions eval_limit_offset_needs_both_scopes.
+Print Assumptions eval_sort_law.
+Print Assumptions eval_sort_law_loop.
+Print Assumptions eval_sorted_is_stable_sort.
+Print Assumptions eval_sort_single_key_order.
+Print Assumptions eval_return_law.
+Print Assumptions eval_collect_law.
+Print Assumptions eval_collect_pipeline_law.
+Print Assumptions eval_iterate_clauses.
+Print Assumptions eval_pipeline_example_law.
+Print Assumptions eval_sort_pipeline_law.
+
+(* non-vacuity: the premises hold on a concrete source, FOR x IN [3, 1, 2] *)
+Definition ex_x : name := bs "x".
+Definition ex_w : world := init_world [] false None.
+Definition ex_src : Eval.iter := ItIndexed ex_x None [VInt 3; VInt 1; VInt 2] 0.
+Definition ex_row (z : Z) : frames := [[(ex_x, VInt z)]; []; []].
+Definition ex_gt1 : expr := ECmp CGt (EVar ex_x) (EInt 1).              (* x > 1 *)
+Definition ex_row_gt1 (r : frames) : bool :=
+  match r with ((_, VInt z) :: _) :: _ => 1 <? z | _ => false end.
+Definition ex_val_gt1 (v : value) : bool := match v with VInt z => 1 <? z | _ => false end.
+
+Example ex_source_yields : yields_at 5 ex_src (fork [[]]) ex_w [ex_row 3; ex_row 1; ex_row 2].
+Proof. exists 5%nat. vm_compute. reflexivity. Qed.
+
+Example ex_filter_premise : forall r, In r [ex_row 3; ex_row 1; ex_row 2] ->
+  exists v, eval 5 ex_gt1 r ex_w = (Ok v, ex_w) /\ vtrue v = ex_row_gt1 r.
+Proof. intros r [<-|[<-|[<-|[]]]]; eexists; split; vm_compute; reflexivity. Qed.
+
+Example ex_filter_instance : yields_at 10 (ItFilter ex_src ex_gt1) [[]] ex_w [ex_row 3; ex_row 2].
+Proof. exact (eval_filter_law_loop ex_gt1 ex_row_gt1 5 ex_src [[]] ex_w _ ex_source_yields ex_filter_premise 10%nat ltac:(vm_compute; repeat constructor)). Qed.
+Example ex_filter_computed : drain 10 10 (ItFilter ex_src ex_gt1) [[]] ex_w = (Ok [ex_row 3; ex_row 2], ex_w).
+Proof. vm_compute. reflexivity. Qed.
+
+Example ex_limit_instance : yields_at 12 (ItLimit (ItFilter ex_src ex_gt1) 1 0 0) [[]] ex_w [[[(ex_x, VInt 3)]; []; []]].
+Proof. exists 12%nat. vm_compute. reflexivity. Qed.
+
+Example ex_sort_premise : forall r, In r [ex_row 3; ex_row 1; ex_row 2] ->
+  Forall2 (fun (ke : expr * bool) v => eval 5 (fst ke) r ex_w = (Ok v, ex_w)) [(EVar ex_x, false)]
+          [match r with ((_, v) :: _) :: _ => v | _ => VNone end].
+Proof. intros r [<-|[<-|[<-|[]]]]; repeat constructor. Qed.
+Example ex_sort_computed :
+  drain 10 10 (ItSort ex_src [(EVar ex_x, false)] None) [[]] ex_w = (Ok [ex_row 1; ex_row 2; ex_row 3], ex_w).
+Proof. vm_compute. reflexivity. Qed.
+
+(* FOR x IN [3, 1, 2] FILTER x > 1 LIMIT 1, 1 RETURN x  =  [2], by the law ... *)
+Example ex_pipeline_by_law :
+  eval_for 30 (ForIn ex_x None (EArr [EInt 3; EInt 1; EInt 2])
+                 [CFilter ex_gt1; CLimit (Some (EInt 1)) (EInt 1)] (RReturn false (EVar ex_x))) [[]] ex_w =
+  (Ok (VArr [VInt 2]), ex_w).
+Proof.
+  apply (eval_pipeline_example_law ex_x (EArr [EInt 3; EInt 1; EInt 2]) ex_gt1 1 1 ex_val_gt1
+           [VInt 3; VInt 1; VInt 2] 5 ex_w [[]]); try reflexivity.
+  - discriminate.
+  - repeat constructor.
+  - intros v [<-|[<-|[<-|[]]]] s [->| ->]; eexists; split; vm_compute; reflexivity.
+  - vm_compute. repeat constructor.
+Qed.
+(* ... and by running the evaluator *)
+Example ex_pipeline_computed :
+  eval_for 30 (ForIn ex_x None (EArr [EInt 3; EInt 1; EInt 2])
+                 [CFilter ex_gt1; CLimit (Some (EInt 1)) (EInt 1)] (RReturn false (EVar ex_x))) [[]] ex_w =
+  (Ok (VArr [VInt 2]), ex_w).
+Proof. vm_compute. reflexivity. Qed.
+
+(* FOR x IN [3, 1, 2] SORT x RETURN x  =  [1, 2, 3] *)
+Example ex_sort_pipeline_by_law :
+  eval_for 30 (ForIn ex_x None (EArr [EInt 3; EInt 1; EInt 2]) [CSort [(EVar ex_x, false)]]
+                 (RReturn false (EVar ex_x))) [[]] ex_w =
+  (Ok (VArr [VInt 1; VInt 2; VInt 3]), ex_w).
+Proof.
+  apply (eval_sort_pipeline_law ex_x (EArr [EInt 3; EInt 1; EInt 2]) [(EVar ex_x, false)] (fun v => [v])
+           [VInt 3; VInt 1; VInt 2] 5 ex_w [[]]); try reflexivity.
+  - repeat constructor.
+  - intros v [<-|[<-|[<-|[]]]]; repeat constructor.
+  - vm_compute. repeat constructor.
+Qed.
+
+(* FOR x IN [3, 1, 2, 1] COLLECT k = x % 2 INTO g = x RETURN [k, g]
+   =  [[0, [2]], [1, [3, 1, 1]]] *)
+Definition ex_k : name := bs "k".
+Definition ex_g : name := bs "g".
+Definition ex_mod2 (v : value) : value := match v with VInt z => VInt (Z.rem z 2) | _ => VNone end.
+Example ex_collect_pipeline_by_law :
+  eval_for 40 (ForIn ex_x None (EArr [EInt 3; EInt 1; EInt 2; EInt 1])
+                 [CCollect [(ex_k, EMath MMod (EVar ex_x) (EInt 2))] (CTInto ex_g (Some (EVar ex_x)))]
+                 (RReturn false (EArr [EVar ex_k; EVar ex_g]))) [[]] ex_w =
+  (Ok (VArr [VArr [VInt 0; VArr [VInt 2]]; VArr [VInt 1; VArr [VInt 3; VInt 1; VInt 1]]]), ex_w).
+Proof.
+  apply (eval_collect_pipeline_law ex_x ex_k ex_g (EArr [EInt 3; EInt 1; EInt 2; EInt 1])
+           (EMath MMod (EVar ex_x) (EInt 2)) (EVar ex_x) ex_mod2 (fun v => v)
+           [VInt 3; VInt 1; VInt 2; VInt 1] 5 ex_w [[]]); try reflexivity.
+  - repeat constructor.
+  - intros v [<-|[<-|[<-|[<-|[]]]]]; repeat split; vm_compute; reflexivity.
+  - vm_compute. repeat constructor.
+Qed.
+Example ex_collect_pipeline_computed :
+  eval_for 40 (ForIn ex_x None (EArr [EInt 3; EInt 1; EInt 2; EInt 1])
+                 [CCollect [(ex_k, EMath MMod (EVar ex_x) (EInt 2))] (CTInto ex_g (Some (EVar ex_x)))]
+                 (RReturn false (EArr [EVar ex_k; EVar ex_g]))) [[]] ex_w =
+  (Ok (VArr [VArr [VInt 0; VArr [VInt 2]]; VArr [VInt 1; VArr [VInt 3; VInt 1; VInt 1]]]), ex_w).
+Proof. vm_compute. reflexivity. Qed.
